@@ -12,7 +12,11 @@ class Loop:
 
 
 class Yield:
-    def __init__(self, post, ghost_after=(), rely=None):
+    def __init__(self, post, ghost_after=(), rely=None, ghost_before=(), hints=()):
+        # hints: intermediate assertions; each is proved (an obligation of its
+        # own) in the state at the yield and only then used as a hypothesis
+        self.hints = [(("h%d" % i, x) if isinstance(x, str) else x) for i, x in enumerate(hints)]
+        self.ghost_before = list(ghost_before)
         self.post = [(("y%d" % i, x) if isinstance(x, str) else x) for i, x in enumerate(post)]
         self.ghost_after = list(ghost_after)
         self.rely = rely
@@ -25,6 +29,22 @@ class Mode:
         self.ensures = [(("e%d" % i, x) if isinstance(x, str) else x) for i, x in enumerate(ensures)]
         self.raises = dict(raises or {})
         self.note = note
+
+
+class Comp:
+    """clauses for a comprehension / generator expression (numbered among the
+    loops of the function; its yield clauses are yields["g<N>"])"""
+    def __init__(self, elem=sym.Real, ensures=(), raises=None, ghost_init=()):
+        self.elem = elem
+        self.ensures = [(("e%d" % i, x) if isinstance(x, str) else x) for i, x in enumerate(ensures)]
+        self.raises = dict(raises or {})
+        self.ghost_init = list(ghost_init)
+
+
+class Lemma:
+    """forall var >= base. statement   (proved by induction: base and step VCs)"""
+    def __init__(self, name, var, statement, base=0):
+        self.name, self.var, self.statement, self.base = name, var, statement, base
 
 
 class Contract:
@@ -43,7 +63,7 @@ class Contract:
     """
     def __init__(self, name, qual, kind, props, modes, loops=None, yields=None, ensures=(), raises=None,
                  ghost_init=(), out_elem=None, default_elem=sym.Elem, spec_env=None, callees=None,
-                 globs=None, replay=None, source=None, group=None, stated=()):
+                 globs=None, replay=None, source=None, group=None, stated=(), comps=None, axioms=(), lemmas=(), theorems=()):
         self.name, self.qual, self.kind, self.props = name, qual, kind, list(props)
         self.modes = modes
         self.loops = loops or {}
@@ -60,6 +80,10 @@ class Contract:
         self.source = source          # callable returning captured text (run-time generated code)
         self.group = group or name
         self.stated = list(stated)    # which sentences of the property this contract carries (for evidence)
+        self.comps = dict(comps or {})
+        self.axioms = [(("ax%d" % i, x) if isinstance(x, str) else x) for i, x in enumerate(axioms)]
+        self.lemmas = list(lemmas)
+        self.theorems = [(("t%d" % i, x) if isinstance(x, str) else x) for i, x in enumerate(theorems)]
         self.ghost_const = set()
         self.loop_havoc_ghost = False
         self.binop_hook = None
